@@ -174,7 +174,23 @@ def features(items, lang=None):
     return f
 
 
-def aspects(item, idx, lang=None):
+AUXABLE = ('DEF', 'STDC', 'CPP', 'STRICT', 'INC', 'SYS', 'OPT', 'OPTSIZE',
+           'REENTRANT', 'ASAN', 'PCH')
+
+
+def aspects(item, idx, lang=None, shlib=False):
+    """shlib: the sub-case also builds a shared_library from the aux TU with the
+    same options; macro-level aspects are then demanded of that TU too."""
+    base = _aspects(item, idx, lang)
+    if shlib and site_of(item['place']) == 'compile' and item['place'] != 'shlib':
+        base = base + ['AUX_' + k for k in base
+                       if re.sub(r'\d+$', '', k) in AUXABLE]
+        if item['opt'] == 'pch':
+            base.append('gch_a')
+    return base
+
+
+def _aspects(item, idx, lang=None):
     opt, val, site = item['opt'], item['val'], site_of(item['place'])
     if site == 'compile':
         if item['place'] == 'shlib':
@@ -319,6 +335,37 @@ HEAD = '''#define VS_(x) #x
 '''
 
 
+def _probe_table(tag, f, prefix, pchmacro):
+    """Initialiser lines of the probe string table of one TU."""
+    m = _probe_lines(tag, prefix)
+    two = ('#if %s\n  "VFP:{t}:{p}%s=1",\n#else\n  "VFP:{t}:{p}%s=0",\n#endif\n')
+    m += (two % ('defined(_REENTRANT)', 'REENTRANT', 'REENTRANT')).format(
+        t=tag, p=prefix)
+    m += (two % ('defined(VF_ASAN)', 'ASAN', 'ASAN')).format(t=tag, p=prefix)
+    m += (two % ('defined(__STRICT_ANSI__)', 'STRICT', 'STRICT')).format(
+        t=tag, p=prefix)
+    m += ('#ifdef __STDC_VERSION__\n  "VFP:%s:%sSTDC=" VS(__STDC_VERSION__),\n'
+          '#else\n  "VFP:%s:%sSTDC=none",\n#endif\n' % (tag, prefix, tag, prefix))
+    m += ('#ifdef __cplusplus\n  "VFP:%s:%sCPP=" VS(__cplusplus),\n'
+          '#else\n  "VFP:%s:%sCPP=none",\n#endif\n' % (tag, prefix, tag, prefix))
+    for x in sorted(i for i in f if isinstance(i, tuple)):
+        if x[0] == 'define':
+            name = 'VFD%d' % x[1]
+            shown = name if x[2] == 'docstr' else 'VS(%s)' % name
+            m += ('#ifdef %s\n  "VFP:%s:%sDEF%d=" %s,\n#else\n'
+                  '  "VFP:%s:%sDEF%d=<undefined>",\n#endif\n'
+                  % (name, tag, prefix, x[1], shown, tag, prefix, x[1]))
+        elif x[0] == 'inc':
+            m += ('  "VFP:%s:%sINC%d=" VS(VF_INC%d_MARK),\n'
+                  % (tag, prefix, x[1], x[1]))
+        elif x[0] == 'sys':
+            m += ('  "VFP:%s:%sSYS%d=" VS(VF_SYS%d_MARK),\n'
+                  % (tag, prefix, x[1], x[1]))
+    if 'pch' in f:
+        m += '  "VFP:%s:%sPCH=" VS(%s),\n' % (tag, prefix, pchmacro)
+    return m
+
+
 def render_sources(tag, lang, items):
     """-> {relpath: text} for one sub-case (main TU, optional aux TU, optional
     pch header, optional warning TUs).  The text is valid C89..C17 and
@@ -347,28 +394,7 @@ def render_sources(tag, lang, items):
     m += 'void vf_alt_entry(void);\n'
     m += '#ifdef __cplusplus\n}\n#endif\n'
     m += 'static const char *const vf_probe[] = {\n'
-    m += _probe_lines(tag)
-    two = ('#if %s\n  "VFP:{t}:%s=1",\n#else\n  "VFP:{t}:%s=0",\n#endif\n')
-    m += (two % ('defined(_REENTRANT)', 'REENTRANT', 'REENTRANT')).format(t=tag)
-    m += (two % ('defined(VF_ASAN)', 'ASAN', 'ASAN')).format(t=tag)
-    m += (two % ('defined(__STRICT_ANSI__)', 'STRICT', 'STRICT')).format(t=tag)
-    m += ('#ifdef __STDC_VERSION__\n  "VFP:%s:STDC=" VS(__STDC_VERSION__),\n'
-          '#else\n  "VFP:%s:STDC=none",\n#endif\n' % (tag, tag))
-    m += ('#ifdef __cplusplus\n  "VFP:%s:CPP=" VS(__cplusplus),\n'
-          '#else\n  "VFP:%s:CPP=none",\n#endif\n' % (tag, tag))
-    for x in sorted(i for i in f if isinstance(i, tuple)):
-        if x[0] == 'define':
-            name = 'VFD%d' % x[1]
-            shown = name if x[2] == 'docstr' else 'VS(%s)' % name
-            m += ('#ifdef %s\n  "VFP:%s:DEF%d=" %s,\n#else\n'
-                  '  "VFP:%s:DEF%d=<undefined>",\n#endif\n'
-                  % (name, tag, x[1], shown, tag, x[1]))
-        elif x[0] == 'inc':
-            m += '  "VFP:%s:INC%d=" VS(VF_INC%d_MARK),\n' % (tag, x[1], x[1])
-        elif x[0] == 'sys':
-            m += '  "VFP:%s:SYS%d=" VS(VF_SYS%d_MARK),\n' % (tag, x[1], x[1])
-    if 'pch' in f:
-        m += '  "VFP:%s:PCH=" VS(VF_PCH_MARK),\n' % tag
+    m += _probe_table(tag, f, '', 'VF_PCH_MARK')
     m += '  0\n};\n'
     m += 'void vf_alt_entry(void) { for (;;) { } }\n'
     m += 'int main(int argc, char **argv) {\n  const char *const *p;\n'
@@ -385,20 +411,36 @@ def render_sources(tag, lang, items):
     m += '  return 0;\n}\n'
     files[tag + '_m' + ext] = m
     if 'aux' in f:
-        a = '/* C16 aux %s */\n' % tag + HEAD
+        a = '/* C16 aux %s */\n' % tag
+        if 'shlib' in f:
+            # the library's own TU is probed like the main one: whatever the
+            # sub-case asks for must also hold on the shared_library target
+            # (together with the -fPIC its link step pushes onto its objects)
+            for x in sorted(i for i in f if isinstance(i, tuple)):
+                if x[0] == 'inc':
+                    a += '#include "vf_inc%d.h"\n' % x[1]
+                elif x[0] == 'sys':
+                    a += '#include <vf_sys%d.h>\n' % x[1]
+        a += HEAD
         a += '#ifdef __cplusplus\nextern "C" {\n#endif\n'
         a += 'int vf_helper(int);\nconst char *const *vf_aux_probe(void);\n'
         a += 'extern int vf_gv;\n'
         a += 'int vf_gv = 3;\n'
         a += 'int vf_helper(int x) { return x * 3 + vf_gv; }\n'
         a += 'static const char *const vf_aux[] = {\n'
-        a += _probe_lines(tag, 'AUX_') + '  0\n};\n'
+        if 'shlib' in f:
+            a += _probe_table(tag, f, 'AUX_', 'VF_PCHA_MARK') + '  0\n};\n'
+        else:
+            a += _probe_lines(tag, 'AUX_') + '  0\n};\n'
         a += 'const char *const *vf_aux_probe(void) { return vf_aux; }\n'
         a += '#ifdef __cplusplus\n}\n#endif\n'
         files[tag + '_a' + ext] = a
     if 'pch' in f:
         files[tag + '_pre.h'] = ('#include <stdio.h>\n'
                                  '#define VF_PCH_MARK 13\n')
+        if 'shlib' in f:
+            files[tag + '_prea.h'] = ('#include <stddef.h>\n'
+                                      '#define VF_PCHA_MARK 14\n')
     if 'warn' in f:
         main = 'int main(void) { return 0; }\n'
         files[tag + '_w0' + ext] = 'int vf_w0(void);\nint vf_w0(void) { return 1 / 0; }\n' + main
@@ -603,7 +645,7 @@ def reference_build(refdir, src, tag, lang, compiler, items, flags, env):
     main_src = os.path.join(src, tag + '_m' + ext)
     main_obj = os.path.join(refdir, tag + '_m.o')
     cflags_main = list(flags['c'])
-    gch = None
+    gch = gch_a = None
     if flags.get('no_pch'):
         f = f - {'pch', 'pch2'}
     if 'pch' in f:
@@ -620,6 +662,11 @@ def reference_build(refdir, src, tag, lang, compiler, items, flags, env):
         aux_c = list(flags['c'])
         if 'pch2' in f:
             aux_c += ['-include', os.path.join(refdir, tag + '_pre.h')]
+        if 'pch' in f and 'shlib' in f:
+            gch_a = os.path.join(refdir, tag + '_prea.h.gch')
+            run([cc, '-x', LANGS[lang]['pchx']] + flags['c'] +
+                [os.path.join(src, tag + '_prea.h'), '-o', gch_a])
+            aux_c += ['-include', os.path.join(refdir, tag + '_prea.h')]
         run([cc] + aux_c + ['-c', os.path.join(src, tag + '_a' + ext),
                             '-o', aux_obj])
         if 'shlib' in f:
@@ -642,7 +689,7 @@ def reference_build(refdir, src, tag, lang, compiler, items, flags, env):
                       ['-c', os.path.join(src, '%s%s%s' % (tag, suffix, ext)),
                        '-o', o])
         wobs[key] = [os.path.exists(o), _diag(out)]
-    return {'exe': exe, 'main_obj': main_obj, 'gch': gch, 'lib': lib,
+    return {'exe': exe, 'main_obj': main_obj, 'gch': gch, 'gch_a': gch_a, 'lib': lib,
             'w': wobs}, log
 
 
@@ -732,6 +779,8 @@ def observe(layout, tag, runnable, env):
         ob['obj_debug'] = ob['obj_lto'] = None
     if layout.get('gch') is not None:
         ob['gch'] = os.path.isfile(layout['gch'])
+    if layout.get('gch_a') is not None:
+        ob['gch_a'] = os.path.isfile(layout['gch_a'])
     for k, v in (layout.get('w') or {}).items():
         ob[k] = v
     return ob
